@@ -27,6 +27,7 @@ from sa import AnalysisError
 from sa.db import own_nodes, unparse
 from sa.lin import Lin, ge, le, eq
 from sa.sym import Engine, Hooks, Num, Con, Tup, Obj, Unk, Ref, State, vkey, NONE
+from rules.decmodel import under as _under
 
 GHOST = "$consumed"
 
@@ -59,6 +60,22 @@ class NextModel(Hooks):
         if len(args) == 2:
             out.append((ex, args[1]))
         return out
+
+    def on_iter(self, eng, fr, node, iterable, st, end=False):
+        # `for _ in symbol_iter:` takes one symbol per iteration, exactly like next(symbol_iter); its normal exit is the
+        # exhausted iterator
+        D = getattr(self, "D", None)
+        itp = getattr(self, "iter_param", None)
+        if D is not None and itp is not None and _under(fr, D) and vkey(iterable) == ("unk", ("param", D.qual, itp)):
+            if end:
+                return _tag(st, ("exhausted",)) if ("exhausted",) not in st.tags else st
+            if ("exhausted",) in st.tags:
+                return False
+            s2 = st.copy()
+            s2.epoch += 1
+            _bump(s2, GHOST, Lin.const(1))
+            return s2
+        return None
 
     @staticmethod
     def is_next(callee):
@@ -158,6 +175,7 @@ class DeriveHooks(NextModel):
         self.ctx = ctx
         self.R = roles["index_reader"]
         self.D = roles["D"]
+        self.iter_param = roles.get("iter")
         self.summ = summ
         self.attr_calls = []      # (node, args, kwargs, state, frame depth)
         self.attr_objs = {}       # attribution object number -> (index value, token value)
@@ -178,7 +196,7 @@ class DeriveHooks(NextModel):
         D, R = self.D, self.R
         if self.is_next(callee) and args and fr.func is D and fr.depth == 0:
             return self.model_next(eng, fr, node, args, st)
-        if callee is R and fr.func is D:
+        if callee is R and _under(fr, D):
             bound = eng.bind_args(callee, args, kwargs) or {}
             want = bound.get(self.summ["cnt"])
             if not isinstance(want, Num):
@@ -215,7 +233,7 @@ class DeriveHooks(NextModel):
                 else:
                     out.append((s2, Num(q)))
             return out
-        if callee is D and fr.func is D:
+        if callee is D and _under(fr, D):
             bound = eng.bind_args(callee, args, kwargs) or {}
             self.rec_calls.append((node, bound, st))
             n = next(eng.counter)
@@ -233,7 +251,7 @@ class DeriveHooks(NextModel):
             tok = kwargs.get("token", a[1])
             self.attr_objs[n] = (idx, tok)
             return [(st, Obj(("attribution", n), callee.qual, {"index": idx, "token": tok}))]
-        if hasattr(callee, "cls") and callee.cls is not None and callee.cls.name == "MolecularGraph" and fr.func is D:
+        if hasattr(callee, "cls") and callee.cls is not None and callee.cls.name == "MolecularGraph" and _under(fr, D):
             bound = eng.bind_args(callee, args[1:], kwargs, skip_self=True) or {}
             if callee.name in ("add_atom", "add_bond", "add_ring_bond", "add_attribution"):
                 n = next(eng.counter)
@@ -916,7 +934,8 @@ def check_encoder_tokens(ctx, rep, RULE):
                 F = g
     if F is None:
         raise AnalysisError("fragment printer of the encoder not found")
-    tokfn = ctx.fn("selfies.encoder._atom_to_selfies")
+    from rules.shared import atom_token_printer
+    tokfn = atom_token_printer(ctx)
     maps, appends = [], []
 
     def builds_map(g, depth=0):
@@ -1013,8 +1032,16 @@ def check_parser_positions(ctx, rep, RULE):
                 if isinstance(e, ast.Name) and e.id in F.params and any(isinstance(n, ast.AugAssign) and isinstance(n.target, ast.Name) and n.target.id == e.id
                                                                          for n in own_nodes(F.node)):
                     ip = (e.id, r.value.elts.index(e))
+    if ip is None:
+        # the function returns the advanced position alone
+        for r in own_nodes(F.node):
+            if isinstance(r, ast.Return) and isinstance(r.value, ast.Name) and r.value.id in F.params \
+                    and any(isinstance(n, ast.AugAssign) and isinstance(n.target, ast.Name) and n.target.id == r.value.id for n in own_nodes(F.node)):
+                ip = (r.value.id, None)
     if bp is None or ip is None:
         rep.note("position bookkeeping of %s not recognised: uniform treatment of bond symbols not decided" % F.qual)
+        rep.ob(RULE, True, F.node, F, construct="position advance per bond symbol", how="not decided for this shape of the parser (see note)",
+               key="bond-symbol-positions/undecided")
         return
     table = ctx.fold.global_value("selfies.utils.smiles_utils", "SMILES_BOND_ORDERS")
     if not isinstance(table, dict) or not table:
@@ -1037,8 +1064,11 @@ def check_parser_positions(ctx, rep, RULE):
         fr = eng.run_function(F, {bp: Con(c), ip[0]: Num(i0)})
         ds = set()
         for s, v in fr.returns:
-            if isinstance(v, Tup) and len(v.items) > ip[1] and isinstance(v.items[ip[1]], Num):
-                d = v.items[ip[1]].lin - i0
+            if ip[1] is None:
+                v = Tup([v])
+            k_ = 0 if ip[1] is None else ip[1]
+            if isinstance(v, Tup) and len(v.items) > k_ and isinstance(v.items[k_], Num):
+                d = v.items[k_].lin - i0
                 ds.add(int(d.k) if d.is_const() and d.k.denominator == 1 else None)
             else:
                 ds.add(None)
